@@ -99,6 +99,54 @@ where
   }
 }
 
+impl<K, V, H> CacheShared<K, V, H>
+where
+  K: Eq + Hash + Clone + Send,
+  V: Send + Sync,
+  H: BuildHasher + Clone,
+{
+  /// Takes `key`'s entry out of its (write-locked) shard map if it has expired, exactly as the
+  /// janitor would. The entry API calls this before it decides between occupied and vacant, so
+  /// that an expired entry is neither handed out nor silently overwritten.
+  pub(crate) fn discard_if_expired(
+    &self,
+    shard: &crate::store::Shard<K, V, H>,
+    map: &mut std::collections::HashMap<K, Arc<CacheEntry<V>>, H>,
+    key: &K,
+  ) {
+    let expired = match map.get(key) {
+      Some(entry) => entry.is_expired(self.time_to_idle),
+      None => false,
+    };
+    if !expired {
+      return;
+    }
+    if let Some((found_key, entry)) = map.remove_entry(key) {
+      if let Some(wheel) = &shard.timer_wheel {
+        if let Some(handle) = &entry.ttl_timer_handle {
+          wheel.cancel(handle);
+        }
+        if let Some(handle) = &entry.tti_timer_handle {
+          wheel.cancel(handle);
+        }
+      }
+      self.get_cache_policy(key).on_remove(&found_key);
+      self.metrics.evicted_by_ttl.fetch_add(1, Ordering::Relaxed);
+      self
+        .metrics
+        .current_cost
+        .fetch_sub(entry.cost(), Ordering::Relaxed);
+      if let Some(sender) = &self.notification_sender {
+        let _ = sender.try_send((
+          found_key,
+          entry.value(),
+          crate::listener::EvictionReason::Expired,
+        ));
+      }
+    }
+  }
+}
+
 impl<K: Send, V: Send + Sync, H> CacheShared<K, V, H> {
 
   #[inline]
